@@ -70,7 +70,7 @@ def jsv(args, timeout=3600, stdin=None, seed_offset=0):
     except subprocess.TimeoutExpired:
         raise ToolError(f'harness timed out: jsv {" ".join(map(str, args))}')
     summary = None
-    for line in p.stdout.splitlines():
+    for line in p.stdout.split('\n'):
         if line.startswith('SUMMARY '):
             summary = json.loads(line[8:])
     if p.returncode != 0 or summary is None:
